@@ -83,6 +83,9 @@ structure WF (cmp : Cmp) (t : TableImg) : Prop where
   dataRead : ∀ d ∈ t.blocks, tableBlockAt t.img d.handle = .ok d.blk.contents
   dataWF : ∀ d ∈ t.blocks, d.blk.WF
   dataNonempty : ∀ d ∈ t.blocks, d.blk.es ≠ []
+  /-- data blocks are distinct regions of the file: no two index entries share an offset -/
+  offsetsDistinct : ∀ (i j : Nat) (di dj : DBlock), t.blocks[i]? = some di → t.blocks[j]? = some dj →
+            di.handle.offset = dj.handle.offset → i = j
   /-- keys strictly increase across the whole table -/
   sorted : KeysSorted cmp t.allKeys
   /-- every key of a block is ≤ the block's index key … -/
